@@ -313,6 +313,7 @@ def run(ctx):
     d8_every_insn_dispatched(db, rep)
     d9_all_operand_slots(db, rep)
     d10_set_key_agrees(db, rep)
+    d11_rule_lookup_fresh(db, rep)
 
     # ---- D4 ------------------------------------------------------------------
     fn = db.func("orc_opcode_find_by_name", "orcopcode")
@@ -646,4 +647,52 @@ def d10_set_key_agrees(db, rep, rule="D10-SET-KEY-AGREES"):
                       "orc_rule_set_new dereferences" % (f.name, cn, kept, nm, cap), line=c.line)
     if n < 1:
         raise AnalysisBroken("no comparison against OrcOpcodeSet.prefix found")
+    return n
+
+
+def d11_rule_lookup_fresh(db, rep, rule="D11-RULE-LOOKUP-FRESH"):
+    """D11: "a rule set registered later for an existing opcode takes precedence".  Registration can happen at any time, so the
+    rule an instruction is compiled with has to be looked up in the target's rule sets at EVERY compile: the value stored in
+    insn->rule by orc_compiler_assign_rules must come from orc_target_get_rule - directly, or through helpers that keep no
+    memory of earlier lookups (no static or global variable read or written on the way)."""
+    tu = db.tu("orccompiler")
+    f = tu.fn.get("orc_compiler_assign_rules")
+    if f is None:
+        raise AnalysisBroken("orc_compiler_assign_rules not found")
+    rep.saw(f)
+    stores = [x for x in f.walk() if x.k == "BinaryOperator" and x.op == "=" and (access_path(x.c[0]) or "").endswith("->rule")]
+    if not stores:
+        raise AnalysisBroken("orc_compiler_assign_rules: store to insn->rule not found")
+    n = 0
+    for x in stores:
+        r = strip_casts(x.c[1])
+        chain = []
+        bad = None
+        cur, host = r, f
+        for _ in range(4):
+            if cur is None or cur.k != "CallExpr":
+                bad = "the stored value is `%s`, not the result of a lookup" % unparse(x.c[1])[:50]
+                break
+            if cur.name == "orc_target_get_rule":
+                break
+            g = host.tu.fn.get(cur.name or "")
+            if g is None or g.body is None:
+                bad = "the lookup goes through %s, whose body is not available" % cur.name
+                break
+            chain.append(g.name)
+            memo = sorted({y.name for y in g.walk() if y.k == "DeclRefExpr" and y.get("dk") in ("global", "static_local")})
+            if memo:
+                bad = "the lookup goes through %s, which reads or writes process-wide state (%s): an answer given before a rule set was registered is " \
+                      "given again afterwards" % (g.name, ", ".join(memo[:3]))
+                break
+            rets = [strip_casts(rr.c[0]) for rr in g.walk() if rr.k == "ReturnStmt" and rr.c and rr.c[0] is not None]
+            calls = [c for c in g.calls("orc_target_get_rule")]
+            if not calls:
+                bad = "%s does not call orc_target_get_rule" % g.name
+                break
+            cur, host = calls[0], g
+        n += 1
+        rep.check(bad is None, rule, where(f), "insn->rule@%s" % x.line,
+                  "insn->rule comes from orc_target_get_rule at every compile%s" % ((" (through %s)" % " -> ".join(chain)) if chain else ""),
+                  "orc_compiler_assign_rules: %s. A rule set that the application registers for this opcode later is ignored by programs compiled afterwards" % bad, line=x.line)
     return n
